@@ -24,16 +24,8 @@ ELA = "llir::lower::stackless::each_lower_arg"
 LA = "llir::lower::LowerArg"
 
 
-def run(db, tier):
-    rep = Report("C05", tier, EXPLANATION, RULE)
-    rep.rule("R-TRAVERSAL", "register collection and register substitution walk the same LowerArg shapes, recursively through DiffSwitch")
-    rep.rule("R-POOL", "scratch registers come from general_use_regs() minus explicitly used and parameter registers")
-    rep.rule("R-EXHAUST", "an exhausted pool is a `script too complex` error")
-    rep.rule("R-ANTISCRATCH", "scratch use together with an anti-scratch instruction is an error")
-    f = db.fn(AR)
-    rep.fn(f)
-    d = flow.Defs(f)
-
+def rule_traversal(db, rep, f):
+    """R-TRAVERSAL: shared with C02 (a register the collector misses is clobbered by a temporary)"""
     # ---------------- R-TRAVERSAL
     collectors = [g for g in db.fns.values() if g.id == GE or g.id.startswith(GE + "::")]
     rec_ok = raw_ok = False
@@ -82,6 +74,20 @@ def run(db, tier):
     uses = [t for _, t in f.calls() if t.get("f") == ELA]
     rep.check(len(uses) >= 1, "R-TRAVERSAL", "assign_registers|uses-each_lower_arg", f.loc, "assign_registers substitutes through each_lower_arg",
               "assign_registers no longer substitutes locals through each_lower_arg")
+
+
+
+def run(db, tier):
+    rep = Report("C05", tier, EXPLANATION, RULE)
+    rep.rule("R-TRAVERSAL", "register collection and register substitution walk the same LowerArg shapes, recursively through DiffSwitch")
+    rep.rule("R-POOL", "scratch registers come from general_use_regs() minus explicitly used and parameter registers")
+    rep.rule("R-EXHAUST", "an exhausted pool is a `script too complex` error")
+    rep.rule("R-ANTISCRATCH", "scratch use together with an anti-scratch instruction is an error")
+    f = db.fn(AR)
+    rep.fn(f)
+    d = flow.Defs(f)
+
+    rule_traversal(db, rep, f)
 
     # ---------------- R-POOL
     gen = flow.calls_to(f, "LanguageHooks::general_use_regs")
